@@ -13,7 +13,7 @@ THEOREMS = {
     "C08": ["C08_tx_count_le_limit", "C08_limit_formula", "C08_backoff_delay_bound", "C08_retry_ladder", "C08_tx_after_answer_refuted", "C08_caps_as_stated",
             "C08_queue_ordered", "C08_next_is_least_pending", "C08_priority_then_arrival_witness",
             "C08_one_in_flight", "C08_current_is_holder", "C08_one_in_flight_nonvacuous", "C08_slot_changes_hands"],
-    "C09": ["C09_no_crash_refuted", "C09_counters_consistent_partial", "C09_caller_wake_answers"],
+    "C09": ["C09_no_crash_refuted", "C09_counters_consistent_partial", "C09_caller_wake_answers", "C09_cancel_schedules_wake", "C09_cancelled_caller_answered"],
 }
 
 RULE = ("scenarios = timed external events over the alphabet {connection made/lost, caller i sends (priority, max_retries 0-5, "
@@ -116,6 +116,12 @@ def special_scenarios():
         sc["events"] = [(0, ("made",))] + [(64 * G, ("call", i)) for i in range(5)]
         sc["burst_when_idle"] = True
         out.append(sc)
+    # more callers than the send buffer holds (32), all in one loop iteration, the gateway echoing promptly: those that do not fit are refused with
+    # the protocol's own error, the others are answered
+    sc = one(0, 20_000_000, default={"lat": 0, "fail": False, "echo": G, "rply": None})
+    sc["cmds"] = [{"kind": "rq30c9", "idx": i % 12, "prio": 0, "max_retries": 0, "timeout": 20_000_000, "wfr": False} for i in range(36)]
+    sc["events"] = [(0, ("made",))] + [(64 * G, ("call", i)) for i in range(36)]
+    out.append(sc)
     # the loss of the connection is reported TWICE (the transport's callback is known to be invoked twice): while a command waits for its echo / its
     # reply, and when idle
     out.append(one(3, 20_000_000, events=[(2 * G, ("lost", None)), (3 * G, ("lost", None))]))
@@ -144,7 +150,8 @@ def check(ctx: Ctx, pid: str) -> None:
     import logging  # noqa: PLC0415
     logging.disable(logging.CRITICAL)
     impl, wedged = [], 0
-    for s in scns:
+    for k, s in enumerate(scns):
+        s.setdefault("via_engine", k % 2 == 1)      # every other scenario: the callers go through the gateway-level entry (Engine.async_send_cmd)
         if wedged >= 2:      # the loop keeps getting blocked: do not spend the budget waiting
             scns = scns[: len(impl)]
             ctx.notes.append("run stopped after two wedged scenarios")
@@ -304,7 +311,9 @@ def oracle(ctx: Ctx, pid: str, s, tr, st, qs, info) -> None:
     cmds = s["cmds"]
     calls = {ev[1]: t for t, ev in s["events"] if ev[0] == "call"}
     writes = {i: [e[1] for e in tr if e[0] == 1 and e[2] == i] for i in calls}
-    dones = {i: [e for e in tr if e[0] in (2, 3, 4, 6, 7) and e[2] == i] for i in calls}
+    dones = {i: [e for e in tr if e[0] in (2, 3, 4, 6, 7, 10) and e[2] == i] for i in calls}
+    # a caller cancelled from outside before its first step (only a stalled loop lets that happen) never runs: nothing to answer
+    unborn = {ev[1] for _, ev in s["events"] if ev[0] == "cancel"} if any(ev[0] == "stall" for _, ev in s["events"]) else set()
     case = {"events": s["events"], "cmds": cmds, "plan": s["plan"], "default_plan": s["default_plan"], "lifo": s["lifo"],
             "mode": s["mode"], "trace": tr}
     slow = any(p["lat"] > 0 for p in s["plan"]) or s["default_plan"]["lat"] > 0
@@ -316,6 +325,8 @@ def oracle(ctx: Ctx, pid: str, s, tr, st, qs, info) -> None:
     if pid == "C07":
         for i, t0 in calls.items():
             c = cmds[i]
+            if i in unborn and not dones[i]:
+                continue
             if len(dones[i]) != 1:
                 ctx.violation("caller-not-answered-once", "a send_cmd call did not finish exactly once", {**case, "cmd": i, "answers": dones[i]}, "schedule")
                 continue
@@ -344,7 +355,8 @@ def oracle(ctx: Ctx, pid: str, s, tr, st, qs, info) -> None:
             if len(writes[i]) > limit:
                 ctx.violation("more-transmissions-than-budget", "a command was transmitted more than 1 + min(max_retries, 3) times",
                               {**case, "cmd": i, "writes": writes[i], "limit": limit}, "schedule")
-            if dones[i] and any(w > dones[i][0][1] for w in writes[i]):
+            # (a caller cancelled from OUTSIDE was given nothing by the library: its command stays in flight until its own timer ends it)
+            if dones[i] and dones[i][0][0] != 10 and any(w > dones[i][0][1] for w in writes[i]):
                 sig = "tx-after-answer:transport-delayed-write" if slow else "tx-after-answer:other"
                 ctx.violation(sig, "a command was transmitted after its caller had been answered",
                               {**case, "cmd": i, "writes": writes[i], "answered_at": dones[i][0][1]}, "schedule")
@@ -429,6 +441,7 @@ def oracle(ctx: Ctx, pid: str, s, tr, st, qs, info) -> None:
                 sig = f"loop-exception:{e[2]}:" + ("caller-timeout-coincides-with-fsm-timer" if coincide else
                                                    "reconnect-after-loss-in-flight" if reconnect else
                                                    "connection-lost-in-the-iteration-a-command-ended" if lost_at_end else
+                                                   "write-fails-in-the-iteration-its-timer-expires" if late_fail and e[1] in info.get("failed_writes", []) else
                                                    "delayed-write-fails-after-command-ended" if late_fail else "other")
                 ctx.violation(sig, "an exception was left unhandled in the event loop (an internal consistency check tripped)",
                               {**case, "at": e[1]}, "schedule")
@@ -446,7 +459,7 @@ def oracle(ctx: Ctx, pid: str, s, tr, st, qs, info) -> None:
             ctx.violation("not-idle-at-quiescence" + (":state-resurrected-by-late-write-failure" if late_fail and want == 0 and st == 1 else ""), "once traffic stopped the sender is not idle/inactive with an empty queue",
                           {**case, "state": st, "queued": qs}, "schedule")
         for i in calls:
-            if not dones[i] and not crashed:
+            if not dones[i] and not crashed and i not in unborn:
                 ctx.violation("caller-never-answered", "a caller was never answered", {**case, "cmd": i}, "schedule")
         if info.get("probe") not in ("ok", "skipped-inactive"):
             sig = "probe-fails-after-episode" + (":after-internal-assertion" if crashed else "")
